@@ -150,7 +150,7 @@ Proof.
     + apply Nat.eqb_neq in E. unfold linv; simpl; autorewrite with cnt. rewrite Hr, Hu, Hb, Hl, He. splits; auto; try lia; try (intros k r []).
   - unfold linv; simpl; autorewrite with cnt. rewrite Hr, Hu. splits; auto.
 Qed.
-Lemma linv_ctl_call s mu dl os rest clk : linv (ctl_call s mu dl os rest clk).
+Lemma linv_ctl_call s mu dl os rest clk held : linv (ctl_call s mu dl os rest clk held).
 Proof.
   unfold ctl_call. destruct (length os =? 0)%nat eqn:E.
   - apply linv_after_first; reflexivity.
@@ -1199,10 +1199,10 @@ Proof.
   intros Hj. destruct (pcs_after_first s clk) as [[H _]|[H|H]]; unfold wnd; try rewrite H; simpl; lia.
 Qed.
 
-Lemma pure_call s mu dl os rest clk : pc_ s = PIdle -> pure_ok s (ctl_call s mu dl os rest clk).
+Lemma pure_call s mu dl os rest clk held : pc_ s = PIdle -> pure_ok s (ctl_call s mu dl os rest clk held).
 Proof.
   intros Hpc. unfold ctl_call.
-  set (s1 := mk_t PIdle rest (new_frame mu dl os) (done s) (results s)).
+  set (s1 := mk_t PIdle rest (new_frame mu dl os held) (done s) (results s)).
   assert (Hr : f_ready (fr s1) = count s1) by reflexivity.
   destruct (length os =? 0)%nat eqn:E.
   - destruct (fr_after_first s1 clk) as [Fo [Fr [Fi Fd]]]. destruct (ns_after_first s1 clk) as [N1 N2].
@@ -2538,9 +2538,9 @@ Lemma dq_notcount s : f_ready (fr s) <> count s -> dq s.
 Proof. intros H Hc. contradiction. Qed.
 Ltac nd := let j := fresh in let r := fresh in let o := fresh in intros j r o; discriminate.
 
-Lemma dq_ctl_call s mu dl os rest clk : dq (ctl_call s mu dl os rest clk).
+Lemma dq_ctl_call s mu dl os rest clk held : dq (ctl_call s mu dl os rest clk held).
 Proof.
-  unfold ctl_call. set (s1 := mk_t PIdle rest (new_frame mu dl os) (done s) (results s)).
+  unfold ctl_call. set (s1 := mk_t PIdle rest (new_frame mu dl os held) (done s) (results s)).
   assert (H1 : dq s1) by (intros _ j r onl [Hin|[]]; discriminate).
   assert (N1 : nospin s1) by (intros j; simpl; congruence).
   destruct (_ =? _)%nat; [|apply (dq_fsame s1); auto; apply fsame_of_fr; reflexivity].
